@@ -9,6 +9,7 @@ import Quanto.Spec.C05
 import Quanto.Linear
 import Quanto.Calib
 import Quanto.ModuleWire
+import Quanto.Serial
 open Quanto
 
 /-- scalar-or-per-element lookup -/
@@ -264,6 +265,31 @@ def handle (toks : List String) : String :=
       let qt := (QType.ofName q).getD .qint8
       let g : Option Nat := if gs == "none" then none else some gs.toNat!
       s!"{frozenPayloadBytes qt rows.toNat! cols.toNat! g} {frozenScaleCount qt rows.toNat! cols.toNat! g}"
+  -- C10: meta strings and flattened key sets
+  | ["meta10", kind, vals] =>
+      let l := parseIntList vals
+      let v : PyMeta := match kind with
+        | "int" => .int (l.headD 0) | "none" => .none | "list" => .list l | _ => .tuple l
+      let str := v.str
+      let back := match PyMeta.parse str with | some w => if w == v then "roundtrip-ok" else "roundtrip-differs" | none => "parse-fails"
+      str.replace " " "_" ++ " " ++ back
+  | ["parse10", str] =>
+      match PyMeta.parse (str.replace "_" " ") with
+      | some (.int n) => s!"int {n}" | some .none => "none" | some (.list l) => s!"list {showIntList l}" | some (.tuple l) => s!"tuple {showIntList l}"
+      | none => "error"
+  | "ser10" :: "qbytes" :: pre :: qt :: axis :: size :: stride :: [] =>
+      let ax : Option Int := if axis == "none" then none else some axis.toInt!
+      let q : QBytesSer := ⟨"D", "S", qt, ax, parseIntList size, parseIntList stride⟩
+      let sd := q.flatten pre
+      let back := match QBytesSer.unflatten pre sd with | some r => if r == q then "roundtrip-ok" else "roundtrip-differs" | none => "unflatten-fails"
+      " ".intercalate (sd.map fun kv => kv.1 ++ "=" ++ (match kv.2 with | .tensor _ => "T" | .str t => t.replace " " "_")) ++ " " ++ back
+  | "ser10" :: "qbits" :: pre :: qt :: axis :: gs :: size :: stride :: bits :: psize :: pstride :: [] =>
+      let ax : Option Int := if axis == "none" then none else some axis.toInt!
+      let g : Option Int := if gs == "none" then none else some gs.toInt!
+      let q : QBitsSer := ⟨⟨"P", bits.toNat!, parseIntList psize, parseIntList pstride⟩, "S", "Z", qt, ax, g, parseIntList size, parseIntList stride⟩
+      let sd := q.flatten pre
+      let back := match QBitsSer.unflatten pre sd with | some r => if r == q then "roundtrip-ok" else "roundtrip-differs" | none => "unflatten-fails"
+      " ".intercalate (sd.map fun kv => kv.1 ++ "=" ++ (match kv.2 with | .tensor _ => "T" | .str t => t.replace " " "_")) ++ " " ++ back
   -- C04
   | ["pack", bits, shape, data] =>
       let t : T Nat := ⟨parseShape shape, (parseNatList data).toArray⟩
